@@ -254,7 +254,7 @@ impl<'tcx> Runner<'tcx> {
         let parts = self.ip.call_instance(st, inst, args);
         let mut rendered = Vec::new();
         let mut joined: Option<Val> = None;
-        if let Some(parts) = parts {
+        if let Ok(parts) = parts {
             for (_, v) in parts {
                 rendered.push(v.short());
                 joined = Some(match joined {
@@ -284,7 +284,7 @@ fn enum_payload(v: &Val, variant: u32, field: usize) -> Val {
     }
 }
 
-fn val_summary(v: &Val, depth: u32) -> J {
+pub fn val_summary(v: &Val, depth: u32) -> J {
     match v {
         Val::Int(i) => jobj! {"int" => J::Arr(vec![J::Int(i.lo), J::Int(i.hi)]), "taint" => J::i(i.taint)},
         Val::Tuple(t) if depth < 4 => J::Arr(t.iter().map(|x| val_summary(x, depth + 1)).collect()),
@@ -321,6 +321,7 @@ pub fn run<'tcx>(tcx: TyCtxt<'tcx>) -> String {
             continue;
         };
         rn.ip.taint_track = job.opts.contains_key("taint");
+        rn.ip.probe_pats = job.opts.get("probe").map(|s| s.split('|').map(|x| x.to_string()).collect()).unwrap_or_default();
         let steps0 = rn.ip.steps;
         let probes0 = rn.ip.probes.len();
         rn.ip.call_trace.clear();
@@ -365,6 +366,7 @@ pub fn run<'tcx>(tcx: TyCtxt<'tcx>) -> String {
             "key" => J::s(k.clone()), "inst" => J::s(s.inst.clone()), "kind" => J::s(s.kind.clone()), "msg" => J::s(s.msg.clone()),
             "site" => J::s(s.site.clone()), "visits" => J::i(s.visits as i128), "violated" => J::Bool(s.violated),
             "witness" => J::s(s.witness.clone()), "roots" => J::arr_s(s.roots.iter().cloned()),
+            "ctxs" => J::arr_s(s.ctxs.iter().cloned()),
         });
     }
     let mut unm = J::obj();
@@ -392,6 +394,7 @@ pub fn run<'tcx>(tcx: TyCtxt<'tcx>) -> String {
         "leaks" => leaks,
         "steps" => J::i(rn.ip.steps as i128),
         "memo_hits" => J::i(rn.ip.memo_hits as i128),
+        "pmemo_hits" => J::i(rn.ip.pmemo_hits as i128),
         "instances_analysed" => J::i(rn.ip.bodies.len() as i128),
         "roots_available" => J::arr_s(rn.names.iter().cloned()),
     }
